@@ -180,3 +180,41 @@ func (r *Runner) Run(p Program) (h *Hist, released bool) {
 		time.Sleep(50 * time.Microsecond)
 	}
 }
+
+// ExpiringContext is a context that ends with context.DeadlineExceeded when
+// Expire is called (or with its parent's error when the parent ends): what a
+// context.WithTimeout looks like to its users at the moment the time is up,
+// without the harness having to guess how long a scenario takes.
+type ExpiringContext struct {
+	context.Context
+	done chan struct{}
+	once sync.Once
+	err  atomic.Value
+}
+
+func NewExpiringContext(parent context.Context) *ExpiringContext {
+	c := &ExpiringContext{Context: parent, done: make(chan struct{})}
+	go func() {
+		select {
+		case <-parent.Done():
+			c.finish(parent.Err())
+		case <-c.done:
+		}
+	}()
+	return c
+}
+
+func (c *ExpiringContext) finish(err error) {
+	c.once.Do(func() { c.err.Store(err); close(c.done) })
+}
+
+// Expire ends the context with context.DeadlineExceeded.
+func (c *ExpiringContext) Expire()               { c.finish(context.DeadlineExceeded) }
+func (c *ExpiringContext) Done() <-chan struct{} { return c.done }
+func (c *ExpiringContext) Err() error {
+	if e, _ := c.err.Load().(error); e != nil {
+		return e
+	}
+	return nil
+}
+func (c *ExpiringContext) Deadline() (time.Time, bool) { return time.Now().Add(time.Hour), true }
